@@ -283,8 +283,9 @@ Fixpoint run (fuel : nat) (cfg : config) (p : pc) (s : bst) : list bev * (pc * b
            let (e2, fin) := run f cfg p1 s1 in (e ++ e2, fin)
   end.
 
-(* enough fuel for any script: every step decreases  8 * |script| + (a local rank below 8) *)
-Definition fuel_for (script : list outcome) : nat := 8 * length script + 8.
+(* enough fuel for any script: every step decreases  9 * |script| + (a local rank below 9), see
+   BackoffProofs.run_script_done *)
+Definition fuel_for (script : list outcome) : nat := 9 * length script + 10.
 
 Definition run_script (cfg : config) (t0 : Z) (script : list outcome) : list bev * (pc * bst) :=
   run (fuel_for script) cfg PcFirst (binit t0 script).
@@ -350,14 +351,15 @@ Definition waits_ok (mn mx : Z) (tr : list bev) : bool :=
 
 (* C09.3: once the application acted, or after the first failure with reconnect_on_failure off,
    no connection attempt follows *)
-Fixpoint final_ok (rof stopped : bool) (tr : list bev) : bool :=
-  match tr with
-  | [] => true
-  | EvAct _ _ :: r => final_ok rof true r
-  | EvFail _ :: r => final_ok rof (stopped || negb rof) r
-  | EvAttempt _ _ :: r => negb stopped && final_ok rof stopped r
-  | _ :: r => final_ok rof stopped r
+Definition final_step (rof : bool) (stopped : bool) (e : bev) : option bool :=
+  match e with
+  | EvAct _ _ => Some true
+  | EvFail _ => Some (stopped || negb rof)
+  | EvAttempt _ _ => if stopped then None else Some stopped
+  | _ => Some stopped
   end.
+Definition final_ok (rof : bool) (tr : list bev) : bool :=
+  match chk (final_step rof) false tr with Some _ => true | None => false end.
 
 Definition has_act (tr : list bev) : bool :=
   existsb (fun e => match e with EvAct _ _ => true | _ => false end) tr.
